@@ -730,7 +730,7 @@ fn run_c18(seed: u64, tier: Tier) -> i32 {
     return 2;
   }
   let total = runs_from_env(match tier {
-    Tier::Quick => 3_000,
+    Tier::Quick => 4_500,
     Tier::Thorough => 400_000,
   });
   let plan = Plan {
